@@ -52,8 +52,17 @@ def runs_of(gene, cfg, gi):
     return out
 
 
+_COMP = {"A": "T", "C": "G", "G": "C", "T": "A", "N": "N"}
+
+
 def ref_base(gene, p):
-    b = gene[p]
+    """base of the genome the reads come from, derived from the RefSeq record and the coordinate map (not from the
+    loader's own lookup string `gene[p]`: the reads are input, they must not inherit what the loader made of the reference)"""
+    if p in gene.chr_to_ref:
+        b = gene.seq[gene.chr_to_ref[p]]
+        b = _COMP.get(b, "N") if gene.strand < 0 else b
+    else:
+        b = "N"
     return b if b != "N" else "A"
 
 
